@@ -21,11 +21,12 @@ LEVEL = "exploration"
 RULE = ("node sets of 1..8 nodes (TCP names, unix paths, names that are prefixes of one another, names with '-') x all "
         "permutations up to 5 nodes (thorough 6) x all add/remove histories up to length 5 over 4 nodes (thorough 6 over 5) x key "
         "corpora (2000 / 20000 keys incl. long and non-ASCII) x forced-tie hash functions x 8 PYTHONHASHSEED subprocesses x "
-        "HashClient server spellings. Non-trivial = node set size >=2; distinct by (node set, order/history, hash function, key batch).")
+        "HashClient server spellings; two threads x 1..2 look-ups each on one hasher, every schedule with <= 2 (thorough 3) preemptions. Non-trivial = node set size >=2; distinct by (node set, order/history, hash function, key batch).")
 ASSUMPTIONS = [
     "the published rule: highest murmur3_32('<node>-<key>') wins, ties go to the greatest node name",
     "for keys with code points >255 the reference defines no value; only order-independence/determinism are checked there",
     "balance is judged only for >=2000 keys: every node's share within 0.5x..1.5x of the mean",
+    "'depends only on the key and the set of servers' holds for each caller of a shared hasher: two threads looking keys up on one RendezvousHash (no membership change in progress) each get the rule's winner; schedules are those of the deterministic scheduler at line granularity inside RendezvousHash",
 ]
 MIN_NONTRIVIAL = {"quick": 1500, "thorough": 20000}
 REQUIRED_COUNTERS = ["placements_vs_reference", "order_pairs_compared", "subprocess_digests", "contacts_vs_rule",
